@@ -32,7 +32,13 @@ class _Normalise(ast.NodeTransformer):
 
     def visit_ClassDef(self, node):
         # class P(typing.NamedTuple): a: int; b: int = 0   -- the field list lives in the annotations that are dropped below
-        if any((isinstance(b, ast.Attribute) and b.attr == 'NamedTuple') or (isinstance(b, ast.Name) and b.id == 'NamedTuple') for b in node.bases):
+        def is_dataclass(d):
+            d = d.func if isinstance(d, ast.Call) else d
+            return (isinstance(d, ast.Name) and d.id == 'dataclass') or (isinstance(d, ast.Attribute) and d.attr == 'dataclass')
+        # (a @dataclass without an __init__ of its own takes its fields from the annotations in the same way)
+        if any((isinstance(b, ast.Attribute) and b.attr == 'NamedTuple') or (isinstance(b, ast.Name) and b.id == 'NamedTuple') for b in node.bases) \
+                or (any(is_dataclass(d) for d in node.decorator_list) and not node.bases
+                    and not any(isinstance(st, ast.FunctionDef) and st.name in ('__init__', '__post_init__') for st in node.body)):
             fields = [(st.target.id, st.value) for st in node.body if isinstance(st, ast.AnnAssign) and isinstance(st.target, ast.Name)]
             node._nt_fields = fields
         self.generic_visit(node)
@@ -158,8 +164,133 @@ class _Normalise(ast.NodeTransformer):
         new = ast.Try(body=node.body, handlers=[handler], orelse=[], finalbody=[])
         return ast.copy_location(new, node)
 
+    def visit_Match(self, node):
+        """`match S: case 'a': A; case 'b' | 'c': B; case _: D`  is  `if S == 'a': A; elif S == 'b' or S == 'c': B; else: D` when the
+        subject is a plain name / attribute chain (evaluated once or many times: same value) and every pattern is a literal, an
+        alternative of literals or the wildcard, without guards.  Anything else is left alone (the walkers report it)."""
+        self.generic_visit(node)
+        import copy
+
+        def plain(e):
+            while isinstance(e, ast.Attribute):
+                e = e.value
+            return isinstance(e, ast.Name)
+        if not plain(node.subject):
+            return node
+
+        def literals(pat):
+            if isinstance(pat, ast.MatchValue) and isinstance(pat.value, ast.Constant) and isinstance(pat.value.value, (str, int, bytes)) \
+                    and not isinstance(pat.value.value, bool):
+                return [pat.value]
+            if isinstance(pat, ast.MatchOr):
+                out = []
+                for p_ in pat.patterns:
+                    sub = literals(p_)
+                    if sub is None:
+                        return None
+                    out.extend(sub)
+                return out
+            return None
+        arms = []
+        default = None
+        for i, case in enumerate(node.cases):
+            if case.guard is not None:
+                return node
+            if isinstance(case.pattern, ast.MatchAs) and case.pattern.pattern is None and case.pattern.name is None:
+                if i != len(node.cases) - 1:
+                    return node
+                default = case.body
+                continue
+            lits = literals(case.pattern)
+            if lits is None:
+                return node
+            tests = [ast.Compare(left=copy.deepcopy(node.subject), ops=[ast.Eq()], comparators=[c]) for c in lits]
+            test = tests[0] if len(tests) == 1 else ast.BoolOp(op=ast.Or(), values=tests)
+            for n_ in ast.walk(test):
+                ast.copy_location(n_, case.pattern)
+            arms.append((test, case.body, case.pattern))
+        if not arms:
+            return node
+        orelse = default or []
+        for test, body, pat in reversed(arms):
+            iff = ast.If(test=test, body=body, orelse=orelse)
+            ast.copy_location(iff, pat)
+            orelse = [iff]
+        ast.copy_location(orelse[0], node)
+        return orelse[0]
+
+    def _search_with_return(self, node):
+        """def f(..): [prefix]; for T in IT: if TEST: return KEY      is      def f(..): [prefix]; _found = DEFAULT
+                                    return DEFAULT                                    for T in IT: if TEST: _found = KEY; break
+                                                                                     return _found
+        (the first-match search written with return instead of break; DEFAULT a constant or absent)"""
+        body = node.body
+        if len(body) < 1:
+            return
+        last = body[-1]
+        default = None
+        if isinstance(last, ast.Return) and len(body) >= 2 and (last.value is None or isinstance(last.value, ast.Constant)):
+            loop = body[-2]
+            default = last.value
+            cut = -2
+        else:
+            loop = last
+            cut = -1
+        holder = None
+        if isinstance(loop, ast.Try) and len(loop.body) == 1 and not loop.orelse and not loop.finalbody \
+                and not any(isinstance(n, (ast.Return, ast.Yield, ast.YieldFrom)) for h in loop.handlers for n in ast.walk(h)):
+            # try: for ..: if ..: return KEY  except E: raise ..   -- the loop is searched inside the try, the result returned after it
+            holder, loop = loop, loop.body[0]
+        if not (isinstance(loop, ast.For) and not loop.orelse and len(loop.body) == 1 and isinstance(loop.body[0], ast.If)
+                and not loop.body[0].orelse and len(loop.body[0].body) == 1 and isinstance(loop.body[0].body[0], ast.Return)
+                and loop.body[0].body[0].value is not None):
+            return
+        # only the first-match search over predicate lists (`if all(p(..) for p in preds)`): other searches are read as they stand
+        if not any(isinstance(n, ast.Call) and isinstance(n.func, ast.Name) and n.func.id == 'all' for n in ast.walk(loop.body[0].test)):
+            return
+        # no other return / yield inside the loop
+        inner = [n for n in ast.walk(loop) if isinstance(n, (ast.Return, ast.Yield, ast.YieldFrom))]
+        if len(inner) != 1:
+            return
+        var = '_found_{}'.format(loop.lineno)
+        ret = loop.body[0].body[0]
+        init = ast.copy_location(ast.Assign(targets=[ast.Name(id=var, ctx=ast.Store())], value=default or ast.Constant(value=None), type_comment=None), loop)
+        setv = ast.copy_location(ast.Assign(targets=[ast.Name(id=var, ctx=ast.Store())], value=ret.value, type_comment=None), ret)
+        brk = ast.copy_location(ast.Break(), ret)
+        loop.body[0].body = [setv, brk]
+        final = ast.copy_location(ast.Return(value=ast.Name(id=var, ctx=ast.Load())), last)
+        node.body = body[:cut] + [init, holder if holder is not None else loop, final]
+        for n_ in ast.walk(init):
+            if not hasattr(n_, 'lineno'):
+                ast.copy_location(n_, loop)
+        for n_ in ast.walk(final):
+            if not hasattr(n_, 'lineno'):
+                ast.copy_location(n_, last)
+        for n_ in ast.walk(setv):
+            if not hasattr(n_, 'lineno'):
+                ast.copy_location(n_, ret)
+
+    def _unused_enumerate(self, node):
+        """`for i, x in enumerate(xs): BODY` with i read nowhere in the function  is  `for x in xs: BODY`."""
+        for loop in [n for n in ast.walk(node) if isinstance(n, ast.For)]:
+            it = loop.iter
+            if not (isinstance(it, ast.Call) and isinstance(it.func, ast.Name) and it.func.id == 'enumerate' and 1 <= len(it.args) <= 2
+                    and all(k.arg == 'start' for k in it.keywords) and not isinstance(it.args[0], ast.Starred)
+                    and isinstance(loop.target, (ast.Tuple, ast.List)) and len(loop.target.elts) == 2 and isinstance(loop.target.elts[0], ast.Name)):
+                continue
+            idx = loop.target.elts[0].id
+            uses = [n for n in ast.walk(node) if isinstance(n, ast.Name) and n.id == idx and n is not loop.target.elts[0]]
+            if uses or any(isinstance(n, (ast.Global, ast.Nonlocal)) and idx in n.names for n in ast.walk(node)):
+                continue
+            if any(isinstance(a, ast.Call) for a in list(it.args[1:]) + [k.value for k in it.keywords]):
+                continue
+            loop.target = loop.target.elts[1]
+            loop.iter = it.args[0]
+
     def _fn(self, node):
         self.generic_visit(node)
+        self._search_with_return(node)
+        self._unused_enumerate(node)
         node.returns = None
         for a in node.args.posonlyargs + node.args.args + node.args.kwonlyargs:
             a.annotation = None
@@ -653,6 +784,90 @@ def _inline_generator_loops(fn, funcs):
     return changed
 
 
+def _canonical_table_params(tree):
+    """The passes receive the two symbol tables of `assemble` (its keyword parameters `constants` and `labels`: public names) under
+    parameter names of their own.  Rules speak about "the label table of the pass"; so that they do not depend on what a pass calls
+    it, a parameter of a module-level function that is handed `labels` (`constants`) by a direct call in `assemble` is renamed to
+    that canonical name (alpha-renaming: only when the function binds no other variable of that name, in any nested scope)."""
+    funcs = {n.name: n for n in tree.body if isinstance(n, ast.FunctionDef)}
+    asm = funcs.get('assemble')
+    if asm is None:
+        return
+    own = {a.arg for a in asm.args.args + asm.args.kwonlyargs}
+    wanted = {}          # (function, parameter) -> canonical name
+    for call in ast.walk(asm):
+        if not (isinstance(call, ast.Call) and isinstance(call.func, ast.Name) and call.func.id in funcs and call.func.id != 'assemble'):
+            continue
+        fn = funcs[call.func.id]
+        if fn.args.vararg or fn.args.kwarg or any(isinstance(a, ast.Starred) for a in call.args) or any(k.arg is None for k in call.keywords):
+            continue
+        params = [a.arg for a in fn.args.posonlyargs + fn.args.args]
+        for i, a in enumerate(call.args):
+            if isinstance(a, ast.Name) and a.id in ('labels', 'constants') and a.id in own and i < len(params):
+                wanted.setdefault((fn.name, params[i]), set()).add(a.id)
+        for k in call.keywords:
+            if isinstance(k.value, ast.Name) and k.value.id in ('labels', 'constants') and k.value.id in own:
+                wanted.setdefault((fn.name, k.arg), set()).add(k.value.id)
+    todo = {}
+    for (fname, param), canon in wanted.items():
+        if len(canon) == 1 and param != next(iter(canon)):
+            todo.setdefault(fname, []).append((param, next(iter(canon))))
+    for fname, pairs in todo.items():
+        fn = funcs[fname]
+        pairs = dict(pairs)
+        if len(set(pairs.values())) != len(pairs):
+            continue
+        bound = set()
+        for n in ast.walk(fn):
+            if isinstance(n, ast.Name):
+                bound.add(n.id)
+            elif isinstance(n, ast.arg):
+                bound.add(n.arg)
+            elif isinstance(n, (ast.FunctionDef, ast.ClassDef)) and n is not fn:
+                bound.add(n.name)
+        if any(new in bound for new in pairs.values()):
+            continue           # the canonical name means something else in this function
+        shadowed = False
+        for n in ast.walk(fn):
+            if n is not fn and isinstance(n, (ast.FunctionDef, ast.Lambda)):
+                a = n.args
+                if any(x.arg in pairs for x in a.posonlyargs + a.args + a.kwonlyargs + ([a.vararg] if a.vararg else []) + ([a.kwarg] if a.kwarg else [])):
+                    shadowed = True
+            if isinstance(n, (ast.Global, ast.Nonlocal)) and any(x in pairs for x in n.names):
+                shadowed = True
+        if shadowed:
+            continue
+        for n in ast.walk(fn):
+            if isinstance(n, ast.Name) and n.id in pairs:
+                n.id = pairs[n.id]
+            elif isinstance(n, ast.arg) and n.arg in pairs:
+                n.arg = pairs[n.arg]
+        for call in ast.walk(tree):
+            if isinstance(call, ast.Call) and isinstance(call.func, ast.Name) and call.func.id == fname:
+                for k in call.keywords:
+                    if k.arg in pairs:
+                        k.arg = pairs[k.arg]
+
+
+def _split_module_tuple_assignments(tree):
+    """Module level `A, B = x, y` is `A = x; B = y` when no right-hand element reads one of the targets (the right-hand side is
+    evaluated first either way, in the same order): named constants defined in pairs are constants like any other."""
+    body = []
+    for st in tree.body:
+        if (isinstance(st, ast.Assign) and len(st.targets) == 1 and isinstance(st.targets[0], (ast.Tuple, ast.List))
+                and isinstance(st.value, (ast.Tuple, ast.List)) and len(st.targets[0].elts) == len(st.value.elts)
+                and all(isinstance(t, ast.Name) for t in st.targets[0].elts) and not any(isinstance(v, ast.Starred) for v in st.value.elts)):
+            names = {t.id for t in st.targets[0].elts}
+            reads = {n.id for v in st.value.elts for n in ast.walk(v) if isinstance(n, ast.Name)}
+            calls = any(isinstance(n, (ast.Call, ast.NamedExpr)) for v in st.value.elts for n in ast.walk(v))
+            if len(names) == len(st.targets[0].elts) and not (names & reads) and not calls:
+                for t, v in zip(st.targets[0].elts, st.value.elts):
+                    body.append(ast.copy_location(ast.Assign(targets=[t], value=v, type_comment=None), st))
+                continue
+        body.append(st)
+    tree.body = body
+
+
 def normalise_tree(tree):
     mods, names = set(), set()
     for st in ast.walk(tree):
@@ -663,6 +878,8 @@ def normalise_tree(tree):
     norm = _Normalise()
     norm.suppress_names = (mods, names)
     tree = norm.visit(tree)
+    _canonical_table_params(tree)
+    _split_module_tuple_assignments(tree)
     gen_funcs = {n.name: n for n in tree.body if isinstance(n, ast.FunctionDef)}
     for n in list(gen_funcs.values()):
         _inline_generator_loops(n, gen_funcs)
